@@ -1,0 +1,46 @@
+//go:build verif
+
+package regulator
+
+// Read-only verification hook (build tag "verif"): a snapshot of the
+// regulator's private bookkeeping, so that a check can tell a dropped player
+// from one who is legitimately waiting. Compiled out of normal builds.
+
+type VerifTable struct {
+	ID          string
+	Required    int
+	PlayerCount int
+}
+
+type VerifState struct {
+	Status             int
+	PlayerCount        int
+	TableCount         int
+	MaxPlayersPerTable int
+	MinInitialPlayers  int
+	Tables             []VerifTable // unordered
+	WaitingQueue       []string
+}
+
+// VerifSnapshot copies the private state of a Regulator created by NewRegulator.
+func VerifSnapshot(reg Regulator) (VerifState, bool) {
+	r, ok := reg.(*regulator)
+	if !ok {
+		return VerifState{}, false
+	}
+
+	s := VerifState{
+		Status:             int(r.status),
+		PlayerCount:        r.playerCount,
+		TableCount:         r.tableCount,
+		MaxPlayersPerTable: r.maxPlayersPerTable,
+		MinInitialPlayers:  r.minInitialPlayers,
+		WaitingQueue:       append([]string{}, r.waitingQueue...),
+	}
+
+	for id, t := range r.tables {
+		s.Tables = append(s.Tables, VerifTable{ID: id, Required: t.Required, PlayerCount: t.PlayerCount})
+	}
+
+	return s, true
+}
